@@ -256,12 +256,13 @@ Theorem rv_share_block_heap i t n lc s p F h0 f0 :
   exists s',
     star im i s (padd i (List.length (fst (r_share_block_n t n lc)))) s' /\
     st_eqB (abs_heap F s') (Heap.share p (Z.of_N n) (abs_heap F s)) /\
-    (forall r, r <> TEMP -> rget s' r = rget s r).
+    (forall r, r <> TEMP -> rget s' r = rget s r) /\
+    (forall a, ~ is_blk a -> hword s' a = hword s a).
 Proof.
   intros PL T0 T1 T2 T3 HH HF HP PB FI NW.
   pose proof (represents_own s h0 f0 HH HF) as RP.
   destruct (rv_share_block_n_refines im i t n lc s _ p PL T0 T1 T2 T3 RP HP (ptr_valid p PB) FI) as (s' & ST & RP' & KR).
-  exists s'. split; [exact ST|]. split; [|exact KR].
+  exists s'. split; [exact ST|]. split; [|split; [exact KR|intros a Ha; destruct RP' as (W & _); rewrite W; now apply a_share_nonblk]].
   eapply st_eqB_trans; [apply (represents_abs F _ _ RP')|].
   eapply st_eqB_trans; [apply habs_share; [exact PB|exact NW]|].
   apply share_st_eqB; [|exact PB]. apply st_eqB_sym. eapply abs_heap_own; eauto.
@@ -276,12 +277,14 @@ Theorem rv_erase_block_heap i t lc s p F h0 f0 :
   exists s',
     star im i s (padd i (List.length (fst (r_erase_block t lc)))) s' /\
     st_eqB (abs_heap F s') (Heap.erase p (abs_heap F s)) /\
-    (forall r, r <> TEMP -> r <> FREE -> rget s' r = rget s r).
+    (forall r, r <> TEMP -> r <> FREE -> rget s' r = rget s r) /\
+    (forall a, ~ is_blk a -> hword s' a = hword s a) /\
+    (exists f', rget s' FREE = Some f').
 Proof.
   intros PL T0 T1 T2 T3 HH HF HP PB NW.
   pose proof (represents_own s h0 f0 HH HF) as RP.
   destruct (rv_erase_block_refines im i t lc s _ p PL T0 T1 T2 T3 RP HP (ptr_valid p PB)) as (s' & ST & RP' & KR).
-  exists s'. split; [exact ST|]. split; [|exact KR].
+  exists s'. split; [exact ST|]. split; [|split; [exact KR|split; [intros a Ha; destruct RP' as (W & _); rewrite W; now apply a_erase_nonblk|destruct RP' as (_ & _ & X); eauto]]].
   eapply st_eqB_trans; [apply (represents_abs F _ _ RP')|].
   eapply st_eqB_trans; [apply habs_erase; [exact PB|exact NW]|].
   apply erase_st_eqB; [|exact PB]. apply st_eqB_sym. eapply abs_heap_own; eauto.
